@@ -23,7 +23,7 @@ RULE = ("seeded random circuit trees built with add/herald/primitives (depth 0-3
         "declaration, nesting depth>=2, ungrouped add, child contains a group}")
 MANDATORY = ["add_ancilla_inside_span", "add_ancilla_after_span", "add_child_herald_in_ne_out",
              "add_heralds_nonascending", "add_nested_depth2", "add_ungrouped", "add_child_has_group",
-             "add_inside_x_in_ne_out", "add_ancilla_before_span"]
+             "add_inside_x_in_ne_out", "add_ancilla_before_span", "plus_operator"]
 DECIDING = ["mon.cmp", "tree_comparisons"]
 BUDGET = {"quick": 30, "thorough": 480}
 ASSUMPTIONS = ["wire model + own permanent are the reference; visible photon number <= 2 (3 when small) "
@@ -38,7 +38,9 @@ def shape_key(log):
             out.append(("add", shape_key(st[1]), st[2], st[3]))
         elif st[0] == "herald":
             out.append(("herald", st[1], st[2], st[3]))
-        elif st[0] in ("circuit", "gate"):
+        elif st[0] == "plus":
+            out.append(("plus", shape_key(st[1]), shape_key(st[2])))
+        elif st[0] in ("circuit", "gate", "plus_self"):
             out.append(tuple(st))
         elif st[0] == "bs":
             out.append(("bs", st[1], st[2], st[4]))
@@ -168,6 +170,8 @@ def run(ctx):
             drain_into(ctx, {"tree": log})
             continue
         check(ctx, c, log, rng)
+        if any(st[0] == "plus" for st in log):
+            ctx.bucket("plus_operator")
         ctx.case(shape_key(log), cls.hit, sample={"tree": log})
         drain_into(ctx, {"tree": log})
     merge_stats(ctx)
